@@ -141,7 +141,9 @@ func c12(run *ev.Run) int {
 		rec := newSpecRecorder()
 		reg := svc.NewRegistry()
 		// a read limit keeps mis-dispatched bodies (read as lying envelopes) cheap
-		hs := svc.Handlers(reg, append(append([]connect.HandlerOption{}, j.set.hopts...), connect.WithInterceptors(rec), connect.WithReadMaxBytes(1<<20))...)
+		// several interceptor-carrying options, shared by the four handlers the way a
+		// generated service constructor shares them between its procedures
+		hs := svc.Handlers(reg, append(append([]connect.HandlerOption{}, j.set.hopts...), connect.WithInterceptors(noopIcept{}), connect.WithInterceptors(rec), connect.WithInterceptors(noopIcept{}), connect.WithReadMaxBytes(1<<20))...)
 		h := hs[j.kind]
 		streaming := j.kind != svc.Unary
 		accepted := refcodec.AcceptedContentTypes(streaming, j.set.names)
@@ -329,7 +331,7 @@ func c12ClientSpecs(run *ev.Run) {
 						}
 						hrec, crec := newSpecRecorder(), newSpecRecorder()
 						reg := svc.NewRegistry()
-						hs := svc.Handlers(reg, append(append([]connect.HandlerOption{}, set.hopts...), connect.WithInterceptors(hrec), connect.WithReadMaxBytes(1<<20))...)
+						hs := svc.Handlers(reg, append(append([]connect.HandlerOption{}, set.hopts...), connect.WithInterceptors(noopIcept{}), connect.WithInterceptors(hrec), connect.WithInterceptors(noopIcept{}), connect.WithReadMaxBytes(1<<20))...)
 						lb := &wire.Loopback{Handler: hs[kind]}
 						opts := svc.ProtoOpts(protocol, "proto")
 						switch codec {
@@ -339,7 +341,7 @@ func c12ClientSpecs(run *ev.Run) {
 						default:
 							opts = append(opts, connect.WithCodec(namedCodec{codec}))
 						}
-						opts = append(opts, connect.WithInterceptors(crec))
+						opts = append(opts, connect.WithInterceptors(noopIcept{}), connect.WithInterceptors(crec), connect.WithInterceptors(noopIcept{}))
 						cs := svc.NewClientSet(lb, base, opts...)
 						call := reg.New("c12s", &svc.Program{Steps: []svc.Step{{Op: "recvall"}, {Op: "sendsum"}}})
 						cl := cs.Do(context.Background(), kind, call.ID, nil, []*gen.Msg{{Id: 1}})
